@@ -167,11 +167,14 @@ def run(repo, rep):
             commented = any(k.startswith('commented(') and v for k, v in pr.facts)
             ok = True
             why = ''
+            keys = ['k%d' % i for i in range(nk)]
+            if nk > 1 and pr.assumed('sort_dict_keys', True):
+                keys = ['sorted%d(%s)' % (i, ','.join(keys)) for i in range(nk)]
             for seq in D.all_layouts(t):
                 sig = list(S.content_sig(seq))
                 want = [('Text', '{')]
                 for i in range(nk):
-                    want += [('Sub', 'k%d' % i), ('Text', ':'), ('Sub', 'd[k%d]' % i)]
+                    want += [('Sub', keys[i]), ('Text', ':'), ('Sub', 'd[%s]' % keys[i])]
                     if i < nk - 1:
                         want.append(('Text', ','))
                 want.append(('Text', '}'))
